@@ -11,16 +11,16 @@ import (
 )
 
 type Record struct {
-	I      int      `json:"i"`
-	Ev     string   `json:"ev"`
-	Args   Event    `json:"args"`
-	Res    Result   `json:"res"`
-	Post   *PState  `json:"post,omitempty"`
-	Probes []Probe  `json:"probes"`
+	I      int     `json:"i"`
+	Ev     string  `json:"ev"`
+	Args   Event   `json:"args"`
+	Res    Result  `json:"res"`
+	Post   *PState `json:"post,omitempty"`
+	Probes []Probe `json:"probes"`
 	// C18 lock-step: the same event executed on the sibling branch whose module store was exported, wiped and re-imported
 	Mirror []Mirror  `json:"mirror"`
 	Cfg    *WorldCfg `json:"cfg,omitempty"`
-	Trace  string   `json:"trace,omitempty"` // trace id on the init record
+	Trace  string    `json:"trace,omitempty"` // trace id on the init record
 }
 
 type Mirror struct {
